@@ -227,6 +227,7 @@ class State:
         self.notes: List[str] = []
         self.effects: List[Tuple[str, Any]] = []
         self.call_memo: Dict[int, Any] = {}               # results of calls that forked (see with_forks)
+        self.yields: List[Any] = []                       # one ListV per generator function being run (what it has yielded so far)
         self.globals: Dict[Tuple[str, str], Any] = {}     # module-level mutable objects touched in this run (shared by all frames)
 
     @property
@@ -529,6 +530,10 @@ class Interp:
     def _exec_stmt(self, st: ast.stmt, state: State, rel: str):
         if isinstance(st, ast.Expr):
             if isinstance(st.value, ast.Constant):
+                return [(state, None)]
+            if isinstance(st.value, ast.Yield) and state.yields:
+                v = self.eval(st.value.value, state, rel) if st.value.value is not None else NONE
+                state.yields[-1].segs.append(Seg(v, state.binders))
                 return [(state, None)]
             self.eval(st.value, state, rel)
             return [(state, None)]
@@ -1681,6 +1686,28 @@ class Interp:
                 raise _Raise(v.exc, state)
             return v
         self.trace_calls.append(fn.name)
+        try:
+            fnode = self.sources.func(fn.module, fn.name)
+        except Exception:
+            fnode = None
+        if fnode is not None and any(isinstance(n_, (ast.Yield, ast.YieldFrom)) for b_ in fnode.body for n_ in ast.walk(b_)
+                                     if not isinstance(b_, (ast.FunctionDef, ast.ClassDef))):
+            # a generator function: its body runs when the result is consumed; for a body that only depends on its arguments that
+            # is the same as running it now and handing out the values one by one (once)
+            state.yields.append(ListV([]))
+            try:
+                outs = self.run_function(fn.module, fn.name, args, state, kwargs)
+            finally:
+                pass
+            if len(outs) == 1 and outs[0].kind == "return":
+                o = outs[0]
+                if o.state is not state:
+                    state.become(o.state)
+                items = state.yields.pop() if state.yields else ListV([])
+                return GenV(None, items=items)
+            if state.yields:
+                state.yields.pop()
+            return Unknown("generator function with several outcomes")
         outs = self.run_function(fn.module, fn.name, args, state, kwargs)
         if len(outs) == 1:
             o = outs[0]
